@@ -137,7 +137,7 @@ def env_of(case, slots, val):
 # ----------------------------------------------------------------------------- tree helpers
 def children(t):
     tag = t[0]
-    if tag in ("in", "lit", "ek", "aconst", "kb", "kbit"):
+    if tag in ("in", "lit", "ek", "aconst", "kb", "kbit", "kv"):
         return []
     if tag == "resize" or tag == "slice":
         return [t[3]]
@@ -155,7 +155,7 @@ def children(t):
 
 
 def is_leaf(t):
-    return t[0] in ("in", "lit", "ek", "kb", "kbit")
+    return t[0] in ("in", "lit", "ek", "kb", "kbit", "kv")
 
 
 def n_ops(t):
@@ -227,6 +227,10 @@ class Renderer:
             return f"({t[1]})" if t[1] < 0 else str(t[1])
         if tag == "ek":
             return f"E{t[1]}.m{t[1]}k{t[2]}"
+        if tag == "kv":
+            if t[1] == "bv":
+                return f'BitVector[{t[2]}]("' + format(t[3], f"0{t[2]}b") + '")'
+            return f"{ptype(t[1], t[2])}({t[3]})"
         if tag == "kb":
             return "True" if t[1] else "False"
         if tag == "kbit":
@@ -634,6 +638,59 @@ def cells_const_mix(full=False):
     return out
 
 
+def const_corners(kind, w):
+    lo, hi = rv.value_range(kind, w)
+    c = [lo, -1, 0, 1, hi, hi // 2 + 1] if kind == "s" else [0, 1, hi, hi // 2 + 1, hi - 1]
+    out = []
+    for x in c:
+        if lo <= x <= hi and x not in out:
+            out.append(x)
+    return out
+
+
+def cells_const_fold(full=False):
+    """binary operators on two CONSTANT Signed / Unsigned objects of different (and equal) widths in both orders with
+    all sign combinations, folded by the tracer inside the design (the result reaches the VHDL as a literal); also
+    constant (op) run-time.  quick: + and - on corner values, the other operators on a sign-combination sample."""
+    out = []
+    wps = [(2, 4), (4, 2), (1, 3), (3, 3)] if not full else \
+        [(a, b) for a in range(1, 6) for b in range(1, 6)]
+    for kind in ("s", "u"):
+        for wa, wb in wps:
+            ca, cb = const_corners(kind, wa), const_corners(kind, wb)
+            for o in ("add", "sub"):
+                for x in ca:
+                    for y in cb:
+                        out.append(([], [o, ["kv", kind, wa, x], ["kv", kind, wb, y]]))
+            if not full and wa == wb:
+                continue
+            for o in ("mul", "truncdiv", "mod", "rem", "lt", "le", "gt", "ge", "eq", "ne", "concat"):
+                for x in (ca if full else (ca[0], ca[-2])):
+                    for y in (cb if full else (cb[0], cb[-2])):
+                        out.append(([], [o, ["kv", kind, wa, x], ["kv", kind, wb, y]]))
+        # constant (op) run-time operand of another width, both orders
+        for wa, wb in ((2, 4), (4, 2)):
+            ports = [["a", kind, wb]]
+            for o in ("add", "sub", "mul", "lt", "ge"):
+                for x in const_corners(kind, wa)[:4]:
+                    out.append((ports, [o, ["kv", kind, wa, x], ["in", "a"]]))
+                    out.append((ports, [o, ["in", "a"], ["kv", kind, wa, x]]))
+    return out
+
+
+def fold_cells(W=(1, 2, 3, 4)):
+    """cells of the Python-level exhaustive fold check: [op, kind, wa, wb]"""
+    out = []
+    for kind in ("s", "u"):
+        for wa in W:
+            for wb in W:
+                for o in ("add", "sub", "mul", "truncdiv", "mod", "rem", "eq", "ne", "lt", "le", "gt", "ge", "concat"):
+                    out.append([o, kind, wa, wb])
+                if wa == wb:
+                    out += [[o, kind, wa, wb] for o in BITW]
+    return out
+
+
 def pack(cells, per=8):
     """group cells by their port declaration, chunk into cases of `per` expressions."""
     groups = {}
@@ -643,8 +700,9 @@ def pack(cells, per=8):
     cases = []
     for key in groups:
         ports, ts = groups[key]
-        for i in range(0, len(ts), per):
-            cases.append({"ports": ports, "exprs": ts[i:i + per], "vals": None, "exh": 12})
+        n = per if ports else 24  # constant-only expressions: one valuation, amortise the compilation
+        for i in range(0, len(ts), n):
+            cases.append({"ports": ports, "exprs": ts[i:i + n], "vals": None, "exh": 12})
     return cases
 
 
@@ -750,6 +808,10 @@ class _Gen:
         k, w = ty
         if k == "enum" and self.chance(0.3):
             return ["ek", w, self.draw(self.st.integers(0, w - 1))]
+        if k in ("u", "s") and self.chance(0.07):  # constant Unsigned / Signed object (folded by the tracer)
+            lo, hi = rv.value_range(k, w)
+            return ["kv", k, w, self.pick([lo, hi, 0, 1] + ([-1] if k == "s" else [])) if self.chance(0.6)
+                    else self.draw(self.st.integers(lo, hi))]
         return self.port(k, w)
 
     # productions per result kind
